@@ -232,6 +232,30 @@ fn request_of(verb: &str, rqn: usize, dir: &str, n: usize) -> (Request, Kind, bo
         "query" => (rt(RequestType::QueryClustersHashes(QueryClustersHashes {})), Kind::Query, true, 1),
         "status" => (rt(RequestType::Status(Status {})), Kind::Query, true, 1),
         "metrics" => (rt(RequestType::QueryMetrics(QueryMetricsOptions::default())), Kind::Query, true, 1),
+        // SetMetricDetail (set_metric_detail_request): scattered like a query, answered OK with a per-worker content
+        // whatever the workers did; a lease longer than LEASE_TTL_MAX is refused before any scatter
+        "mdetail" => (
+            rt(RequestType::SetMetricDetail(sozu_command_lib::proto::command::SetMetricDetail {
+                client_id: format!("verif:{rqn}"),
+                detail: Some(sozu_command_lib::proto::command::MetricDetail::DetailBackend as i32),
+                ttl_seconds: Some(30),
+                ..Default::default()
+            })),
+            Kind::Query,
+            true,
+            1,
+        ),
+        "mdetailbad" => (
+            rt(RequestType::SetMetricDetail(sozu_command_lib::proto::command::SetMetricDetail {
+                client_id: format!("verif:{rqn}"),
+                detail: Some(sozu_command_lib::proto::command::MetricDetail::DetailBackend as i32),
+                ttl_seconds: Some(100_000),
+                ..Default::default()
+            })),
+            Kind::Local,
+            false,
+            0,
+        ),
         "local" => {
             let r = match rqn % 4 {
                 0 => RequestType::ListWorkers(ListWorkers {}),
